@@ -188,7 +188,10 @@ fn main() {
                             else { None };
                         let got = hl.iter().find(|h| usize::from(h.range.start()) == *off && usize::from(h.range.end()) == off + s.len()).map(|h| format!("{:?}", h.tag));
                         if exp.map(|x| x.to_string()) != got {
-                            return Some(json!({"what": "highlight", "token": s, "expected": exp, "got": got, "offset": off}));
+                            // the reference is the operand of a prefix operator (`! f(..)`, `- f(..)` after `{` or `=`)
+                            let prev2 = if k > 1 { gtoks[k - 2].1.as_str() } else { "" };
+                            let prefix_operand = prev == "!" || (prev == "-" && (prev2 == "{" || prev2 == "="));
+                            return Some(json!({"what": "highlight", "token": s, "expected": exp, "got": got, "offset": off, "prefix_operand": prefix_operand}));
                         }
                     }
                 }
@@ -233,7 +236,7 @@ fn main() {
                 let got_has_var = b["got"].as_str().map(|g| alpha(g).contains('\'')).unwrap_or(false);
                 let got_is_perm = match (b["expected"].as_str(), b["got"].as_str()) { (Some(e), Some(g)) => is_param_permutation(&alpha(e), &alpha(g)), _ => false };
                 let prop = if b["what"] == "highlight" { "C19" } else { "C09" };
-                local.push(json!({"kind": "mismatch", "prop": prop, "features": {"what": b["what"], "role": b["role"], "got_has_var": got_has_var, "got_is_perm": got_is_perm,
+                local.push(json!({"kind": "mismatch", "prop": prop, "features": {"what": b["what"], "role": b["role"], "got_has_var": got_has_var, "got_is_perm": got_is_perm, "prefix_operand": b["prefix_operand"],
                     "no_hover": b["got"] == "<no hover>",
                     "expected": b["expected"].as_str().map(shape), "got": b["got"].as_str().map(shape)},
                     "detail": {"case": c, "text": text, "bad": b, "prelude": prelude_sigs.iter().map(|(n, s)| json!({"name": n, "sig": s})).collect::<Vec<_>>()}}));
